@@ -318,6 +318,109 @@ def opTable : List OpSpec :=
 
 def findOp (name : String) : Option OpSpec := opTable.find? (·.name = name)
 
+/-! ### operations as programs: where the CRS comparison sits relative to everything else
+
+The walks above fix *one* place for the check.  Here the body of an operation is an explicit
+statement list, so that "the check comes before any geometric short-cut" is a property of the
+program text (`Prog.safe`) that can be proved to imply the three statements of C01 — and that a
+quick reject or a `continue` placed above the check violates. -/
+
+/-- statements of the body of a stream loop (`for bb in bbs:`), in program order -/
+inductive LoopStmt where
+  | accumulate            -- `L = min(l, L) …`: the operand's raw numbers enter the accumulator
+  | check                 -- `if crs != bb.crs: raise`
+  | continueIf (p : Nat)  -- `if pred_p(bb): continue` — a skip decided on the raw numbers
+  deriving DecidableEq, Repr
+
+/-- statements of a guard-then-call operation, in program order -/
+inductive Stmt where
+  | checkRest (rev : Bool)   -- `for arg in args[1:]: if first.crs != arg.crs: raise`
+  | returnIf (p : Nat)       -- `if quick_p(raw shapes): return shortcut` — a geometric quick reject
+  | delegate                 -- the shapely call; returns
+  deriving DecidableEq, Repr
+
+inductive Prog where
+  | straight (stmts : List Stmt)
+  | loop (body : List LoopStmt)
+  deriving DecidableEq, Repr
+
+/-- the raw-coordinate predicates and short-cut results such statements may use -/
+structure Quick (S R : Type) where
+  pred : Nat → List S → Bool
+  shortcut : Nat → List S → R
+  skip : Nat → S → Bool
+
+def runStmts (op : OpSpec) (D : Delegate S R) (Q : Quick S R) (x0 : Obj S) (rest : List (Obj S)) :
+    List Stmt → Except Err (Out R)
+  | [] => .ok .nothing                       -- falls off the end: Python `None`
+  | .checkRest rev :: more =>
+    match guardAll rev op.mismatchErr x0.crs rest with
+    | .error e => .error e
+    | .ok () => runStmts op D Q x0 rest more
+  | .returnIf p :: more =>
+    if Q.pred p (x0.raw :: rest.map (·.raw)) then
+      .ok (.val (outTag op x0.crs) (Q.shortcut p (x0.raw :: rest.map (·.raw))))
+    else runStmts op D Q x0 rest more
+  | .delegate :: _ =>
+    match D.call op.name (x0.raw :: rest.map (·.raw)) with
+    | .error e => .error e
+    | .ok r => .ok (.val (outTag op x0.crs) r)
+
+/-- one pass through the loop body for operand `x`: the new accumulator, or the error -/
+def runBody (op : OpSpec) (D : Delegate S R) (Q : Quick S R) (t0 : Tag) (x : Obj S) :
+    R → List LoopStmt → Except Err R
+  | acc, [] => .ok acc
+  | acc, .accumulate :: more => runBody op D Q t0 x (D.stepT op.name acc x.raw) more
+  | acc, .check :: more => if tagNe t0 x.crs then .error op.mismatchErr else runBody op D Q t0 x acc more
+  | acc, .continueIf p :: more => if Q.skip p x.raw then .ok acc else runBody op D Q t0 x acc more
+
+def runLoop (op : OpSpec) (D : Delegate S R) (Q : Quick S R) (t0 : Tag) (body : List LoopStmt) :
+    R → List (Obj S) → Except Err R
+  | acc, [] => .ok acc
+  | acc, x :: xs => match runBody op D Q t0 x acc body with
+    | .error e => .error e
+    | .ok acc' => runLoop op D Q t0 body acc' xs
+
+def runProg (op : OpSpec) (D : Delegate S R) (Q : Quick S R) (p : Prog) (x0 : Obj S) (rest : List (Obj S)) :
+    Except Err (Out R) :=
+  match p with
+  | .straight stmts => runStmts op D Q x0 rest stmts
+  | .loop body => match runLoop op D Q x0.crs body (D.init op.name x0.raw) rest with
+    | .error e => .error e
+    | .ok r => .ok (.val (outTag op x0.crs) r)
+
+/-- the check is the first thing a guard-then-call operation does -/
+def safeStmts : List Stmt → Bool
+  | .checkRest _ :: _ => true
+  | _ => false
+
+/-- in a loop body nothing can skip the rest of the iteration before the check -/
+def safeBody : List LoopStmt → Bool
+  | .check :: _ => true
+  | .accumulate :: more => safeBody more
+  | .continueIf _ :: _ => false
+  | [] => false
+
+def Prog.safe : Prog → Bool
+  | .straight stmts => safeStmts stmts
+  | .loop body => safeBody body
+
+/-- the program text of the table's walks (geom.py:374-392, 808-814, 1020-1036, 1276-1290, 1330-1383;
+geobox.py:1108-1133); `reduce` and `pixelEach` are compositions of these and keep their own model -/
+def progOf : Walk → Option Prog
+  | .guardFirst rev => some (.straight [.checkRest rev, .delegate])
+  | .foldCheckInside => some (.loop [.accumulate, .check])
+  | .reduce => none
+  | .pixelEach => none
+
+/-- for every operand after the first: is its CRS read before (`C`) or after (`R`) its raw
+coordinates are first touched — what the harness observes with access-logging operands -/
+def accessPattern : Walk → Char
+  | .guardFirst _ => 'C'
+  | .reduce => 'C'
+  | .pixelEach => 'C'
+  | .foldCheckInside => 'R'
+
 /-! ### which attribute of a CRS specification decides its identity (`CRS.__init__`, `_make_crs`: crs.py:57-78, 100-122)
 
 Strings / ints / pyproj objects / odc CRS / dicts are read as themselves.  A *foreign* object
@@ -332,6 +435,36 @@ inductive IdSource where
 /-- `foreignIdentity hasWkt hasEpsg hasString` -/
 def foreignIdentity (hasWkt _hasEpsg _hasString : Bool) : Except Err IdSource :=
   if hasWkt then .ok .wkt else .error (.other 1)   -- pyproj CRSError("Unexpected input encountered")
+
+/-! ### `norm_crs`, `norm_crs_or_error` (crs.py:410-442) -/
+
+inductive CrsInput where
+  | none                         -- `None`
+  | unset                        -- `Unset()`
+  | odc                          -- already an odc `CRS`
+  | utmText (hasCtx : Bool)      -- 'utm' / 'utm-n' / 'utm-s' (any case); `ctx` says where
+  | otherSpec (accepted : Bool)  -- anything else; `accepted`: `CRS(spec)` can be constructed
+  deriving DecidableEq, Repr
+
+inductive Normed where
+  | nothing | same | utm | constructed
+  deriving DecidableEq, Repr
+
+/-- `norm_crs(crs, ctx)` -/
+def normCrs : CrsInput → Except Err Normed
+  | .none => .ok .nothing
+  | .unset => .ok .nothing
+  | .odc => .ok .same
+  | .utmText true => .ok .utm
+  | .utmText false => .error .assertion          -- `assert ctx is not None`
+  | .otherSpec true => .ok .constructed
+  | .otherSpec false => .error (.other 1)        -- pyproj CRSError
+
+/-- `norm_crs_or_error(crs, ctx)` -/
+def normCrsOrError (i : CrsInput) : Except Err Normed :=
+  match normCrs i with
+  | .ok .nothing => .error .valueError            -- "Expect valid CRS"
+  | r => r
 
 /-! ### call forms
 
